@@ -188,7 +188,63 @@ PATH_OK = [
     "implies(defined('path'), len(path) >= 1 and path[0] == start and result.objective == len(path) - 1)",
     "implies(defined('path'), forall(i, implies(0 <= i < len(path) - 1, Nbr(path[i], path[i + 1])), trig=path[i]))",
 ]
-for name, cont, st_ok in (("bfs", "queue", 1), ("dfs", "stack", 2)):
+# ---- bfs: real path AND the certificate of minimal length (levels)
+# lev (ghost): discovery level of a visited node; done (ghost): the node has been dequeued; where (ghost): its index in the queue
+REG.callback("Nb", ["U<S>"], "list[U<S>]", pure=True)
+REG.lemma("lev_along_path", ["P", "L", "i"],
+          "implies(forall(t, implies(0 <= t < i, L[P[t + 1]] == L[P[t]] + 1)), L[P[i]] == L[P[0]] + i)",
+          kind="induction", on="i", group="bfslev", var_sorts={"P": "list[U<S>]", "L": "map[U<S>,int]"}, trig=["L[P[i]]"])
+NBREL = "forall(i, implies(0 <= i < len(Nb({u})), has(visited, Nb({u})[i]) and lev[Nb({u})[i]] <= lev[{u}] + 1), trig=Nb({u})[i])"
+BI = [
+    "has(visited, start)", "lev[start] == 0", "not has(parent, start)", "is_set(is_goal)",
+    "forall(v, implies(has(visited, v), lev[v] >= 0), sorts={'v': 'U<S>'}, trig=has(visited, v))",
+    "forall(v, implies(has(visited, v) and v != start, has(parent, v)), sorts={'v': 'U<S>'}, trig=has(visited, v))",
+    "forall(v, implies(has(parent, v), has(visited, v) and has(visited, get(parent, v)) and done[get(parent, v)] and 0 <= pi[v] < len(Nb(get(parent, v))) and Nb(get(parent, v))[pi[v]] == v and lev[v] == lev[get(parent, v)] + 1), sorts={'v': 'U<S>'}, trig=has(parent, v))",
+    "forall(v, implies(done[v], has(visited, v) and not goalp(v)), sorts={'v': 'U<S>'}, trig=done[v])",
+    # the queue: visited and not yet dequeued nodes, each at its recorded index, levels non-decreasing and within one of the head
+    "forall(p, implies(0 <= p < len(queue), has(visited, queue[p]) and not done[queue[p]] and where[queue[p]] == p), trig=queue[p])",
+    "forall(v, implies(has(visited, v) and not done[v], 0 <= where[v] < len(queue) and queue[where[v]] == v), sorts={'v': 'U<S>'}, trig=has(visited, v))",
+    "forall(p, q, implies(0 <= p < q and q < len(queue), lev[queue[p]] <= lev[queue[q]]), trig=((queue[p], queue[q]),))",
+    "forall(p, implies(0 <= p < len(queue), lev[queue[p]] <= lev[queue[0]] + 1), trig=queue[p])",
+    "forall(u, p, implies(done[u] and 0 <= p < len(queue), lev[u] <= lev[queue[p]]), sorts={'u': 'U<S>'}, trig=((done[u], queue[p]),))",
+]
+REG.fn(BF_, "bfs", prop="C11", ret="Result[opaque]", lemmas=["bfslev"], dead_returns_ok=True,  # the traversal-mode return is excluded by the requires
+       types={"goal": "opaque", "neighbors": "fun:Nb", "is_goal": "fun:goalp", "path": "list[U<S>]",
+              "parent": "dict[U<S>,U<S>]", "visited": "set[U<S>]", "queue": "list[U<S>]",
+              "lev": "map[U<S>,int]", "done": "map[U<S>,bool]", "where": "map[U<S>,int]", "pi": "map[U<S>,int]"},
+       requires=["is_set(is_goal)"],   # a search with a goal (the traversal mode makes no distance claim)
+       ghost_before=[("visited: set[S] = {start}", "lev", "lam(v, 0, sort='U<S>')"),
+                     ("visited: set[S] = {start}", "done", "lam(v, False, sort='U<S>')"),
+                     ("visited: set[S] = {start}", "where", "lam(v, 0, sort='U<S>')"),
+                     ("visited: set[S] = {start}", "pi", "lam(v, 0, sort='U<S>')")],
+       ghost_after=[("current = queue.popleft()", "done", "store(done, current, True)"),
+                    ("current = queue.popleft()", "where", "lam(v, where[v] - 1, sort='U<S>')"),
+                    ("parent[neighbor] = current", "lev", "store(lev, neighbor, lev[current] + 1)"),
+                    ("parent[neighbor] = current", "pi", "store(pi, neighbor, _k2)"),
+                    ("queue.append(neighbor)", "where", "store(where, neighbor, len(queue) - 1)")],
+       ensures=[
+           "implies(defined('path'), result.status == 1 and len(path) >= 1 and path[0] == start and goalp(path[len(path) - 1]))",
+           "implies(defined('path'), forall(i, implies(0 <= i < len(path) - 1, 0 <= pi[path[i + 1]] < len(Nb(path[i])) and Nb(path[i])[pi[path[i + 1]]] == path[i + 1] and lev[path[i + 1]] == lev[path[i]] + 1), trig=path[i]))",
+           # the reported distance is the level of the goal found ...
+           "implies(defined('path'), result.objective == len(path) - 1 and result.objective == lev[current])",
+           # ... and the certificate: every dequeued node other than that goal is no goal, has all its neighbours visited at most one
+           #     level deeper, and lies no deeper than the goal; every other visited node lies at least as deep.  (Paper lemma: levels that
+           #     grow by at most one along every edge out of the dequeued set bound the number of edges of every walk from below.)
+           "implies(defined('path'), forall(u, implies(done[u] and u != current, not goalp(u) and lev[u] <= lev[current] and " + NBREL.format(u="u") + "), sorts={'u': 'U<S>'}, trig=done[u]))",
+           "implies(defined('path'), forall(v, implies(has(visited, v) and (not done[v] or v == current), lev[v] >= lev[current]), sorts={'v': 'U<S>'}, trig=has(visited, v)))",
+           # INFEASIBLE: the visited set contains the start, is closed under the edges and holds no goal
+           "implies(result.status == 3, has(visited, start) and forall(u, implies(has(visited, u), done[u] and not goalp(u) and " + NBREL.format(u="u") + "), sorts={'u': 'U<S>'}, trig=has(visited, u)))",
+       ],
+       loops={1: LoopSpec(invariants=BI + ["forall(u, implies(done[u], " + NBREL.format(u="u") + "), sorts={'u': 'U<S>'}, trig=done[u])"]),
+              2: LoopSpec(invariants=BI + [
+                  "has(visited, current)", "done[current]",
+                  "forall(u, implies(done[u] and u != current, " + NBREL.format(u="u") + "), sorts={'u': 'U<S>'}, trig=done[u])",
+                  "forall(i, implies(0 <= i < _k2, has(visited, Nb(current)[i]) and lev[Nb(current)[i]] <= lev[current] + 1), trig=Nb(current)[i])",
+                  "forall(u, implies(done[u], lev[u] <= lev[current]), sorts={'u': 'U<S>'}, trig=done[u])",
+                  "forall(p, implies(0 <= p < len(queue), lev[current] <= lev[queue[p]] and lev[queue[p]] <= lev[current] + 1), trig=queue[p])",
+              ])})
+
+for name, cont, st_ok in (("dfs", "stack", 2),):
     REG.fn(BF_, name, prop="C11", ret="Result[opaque]",
            types={"goal": "opaque", "neighbors": "fun:unbr", "is_goal": "fun:isgoal", "path": "list[U<S>]",
                   "parent": "dict[U<S>,U<S>]", "visited": "set[U<S>]", cont: "list[U<S>]"},
